@@ -117,15 +117,18 @@ func generate(c *vlib.Ctx) []*Hist {
 				continue // same as unsegmented
 			}
 			for _, wc := range worldCfgs {
+				if !thorough && head == 4 && (seg == 1 || !(wc.name == "one" || wc.name == "two" || wc.name == "alive+dead")) {
+					continue // quick: the longest chain on the main configurations only
+				}
 				cfgs := []fd.Config{{Seg: seg}}
-				if head >= 3 && (wc.name == "one" || thorough) {
+				if head == 3 && (wc.name == "one" || thorough) || head > 3 && thorough {
 					cfgs = append(cfgs, fd.Config{Seg: seg, Latest0: 1}, fd.Config{Seg: seg, Pre: []int{head - 1}})
 				}
 				for _, cfg := range cfgs {
 					for _, mode := range modes {
 						n := nreq(wc.kind, mode, head, cfg)
 						for _, f := range faultKinds(wc.kind, mode) {
-							if !thorough && (f.K == "stallhdr" || f.K == "stallbody") && (head == 4 || (head == 3 && seg == 1)) {
+							if !thorough && (f.K == "stallhdr" || f.K == "stallbody") && (head == 4 || (head == 3 && (seg != 0 || cfg.Latest0 != 0 || len(cfg.Pre) != 0))) {
 								continue // stalls cost the client timeout each; thorough does them all
 							}
 							for at := 0; at < n; at++ {
@@ -258,9 +261,9 @@ func generate(c *vlib.Ctx) []*Hist {
 								for j := 0; j <= n+1; j++ {
 									if !thorough {
 										// quick: a seeded sample, thinner where stalls make it slow
-										den := 14
+										den := 30
 										if stall > 0 {
-											den = 60
+											den = 400
 										}
 										if rp.Intn(den) != 0 {
 											continue
@@ -286,7 +289,7 @@ func generate(c *vlib.Ctx) []*Hist {
 
 	// ---- random histories
 	rr := c.Rng.Fork("random")
-	nrand := c.Pick(500, 6000)
+	nrand := c.Pick(300, 6000)
 	for k := 0; k < nrand; k++ {
 		wc := worldCfgs[rr.Intn(len(worldCfgs))]
 		head := 1 + rr.Intn(4)
